@@ -1,6 +1,7 @@
 SPECIFICATION GSpec
 CONSTANTS N = 2
           DOUBLE = FALSE
+          ARITY0 = FALSE
 CHECK_DEADLOCK FALSE
 INVARIANT Emit
 INVARIANT IdsUnique
